@@ -841,6 +841,9 @@ func (e *evalEnv) call(x *ast.CallExpr) tv {
 				e.fail(x, "mapview(): values must be byte slices")
 			}
 			return tv{term: fmt.Sprintf("(mkSMap (select %s %s) (mvview (select %s %s) (select %s %s) %s))", e.st.H["MD"], m.term, e.st.H["MD"], m.term, e.st.H["ML"], m.term, e.st.H["I"]), typ: types.NewMap(mt.Key(), tString), smap: true}
+		case "spawned":
+			// spawned(): number of go statements the function under verification has executed so far (ghost)
+			return tv{term: sel(e.st.H["I"], ghostSpawnRef, "0"), typ: tInt}
 		case "seen":
 			// seen(k): key k has been produced by the (single) map range loop of this function
 			var it string
